@@ -7,6 +7,8 @@ EXPLANATION = (
     "Static decision on the MIR of /repo's working tree: (R-C08-save) in handle_disconnection, on the persistent (!connection.clean) edge the waiters returned by DataLog::clean(id) are re-registered in the tracker, "
     "that re-registration dominates the rewind loop (so parked requests are rewound as well), the tracker's requests are rewound from Outgoing::retransmission_map() before Graveyard::save_state, and save_state receives the removed connection's tracker, subscriptions and unacked_pubrels; "
     "every path past the removal ends in save_state or save_metrics; "
+    "(R-C08-cursor) the log offset recorded per outgoing packet id is the forwarded item's own: native_readv's entries keep item.1, Forward.cursor is the item's offset, "
+    "push_forwards records (assigned pkid, filter_idx, p.cursor), and retransmission_map keeps the first cursor per filter; "
     "(R-C08-restore) in handle_new_connection ConnAck.session_present = !clean_session && <saved session exists>, the tracker handed to the scheduler is the saved one only on the !clean_session edge "
     "(Tracker::new on the clean edge), and the restoring closure puts back subscriptions and unacked_pubrels; "
     "(R-C08-single-home) the graveyard map is written only by save_state / save_metrics / retrieve. "
@@ -20,6 +22,7 @@ LEVEL_NOTE = "Trusted: rustc MIR. The clean/persistent edges are found structura
 def run(ctx):
     prog = ctx.progs["rumqttd"]
     ctx.guarded("R-C08-save", save, ctx, prog)
+    ctx.guarded("R-C08-cursor", cursor_chain, ctx, prog)
     ctx.guarded("R-C08-restore", restore, ctx, prog)
     ctx.guarded("R-C08-single-home", single_home, ctx, prog)
 
@@ -341,3 +344,75 @@ def single_home(ctx, prog):
             else:
                 ctx.violation(rule, body.id, "graveyard.%s" % name, "the saved-session map is modified outside save_state / save_metrics / retrieve", site=body.loc(t.get("sp")))
     ctx.floor(rule, "graveyard map mutations", n, 3)
+
+
+def cursor_chain(ctx, prog):
+    """The rewind on disconnect uses, per packet id, the log offset of the message that was forwarded under
+    that id.  That offset travels  Segment/CommitLog::readv (R-C13-tags) -> DataLog::native_readv ->
+    Forward.cursor -> Outgoing.inflight_buffer -> retransmission_map.  Each hop must pass on the item's own
+    offset (the closure's item parameter / the loop item), never a captured or function-level value."""
+    rule = "R-C08-cursor"
+    # hop 1: native_readv's map closure keeps the item's offset
+    nr = prog.one(r"^router::logs::DataLog::native_readv$")
+    hop1 = 0
+    for cb in prog.find(r"^router::logs::DataLog::native_readv::\{closure#\d+\}$"):
+        if not cb.local_ty(0).startswith("(("):
+            continue      # the retain_mut predicate returns bool
+        for blk in cb.blocks:
+            for st in blk["s"]:
+                if "lhs" in st and st["lhs"]["l"] == 0 and not st["lhs"].get("p") and st["rv"]["k"] == "agg" and st["rv"].get("ak") == "tuple" and len(st["rv"]["ops"]) == 2:
+                    hop1 += 1
+                    src = flatten_src(provenance(cb, st["rv"]["ops"][1]))
+                    if src and all(x.kind == "param" and x.l == 2 and x.fields[-1:] == ["1"] for x in src):
+                        ctx.ok(rule, cb.id, "native_readv: each entry keeps the offset it was read with (item.1)", site=cb.loc(st.get("sp")))
+                    else:
+                        ctx.violation(rule, cb.id, "entry offset replaced",
+                                      "DataLog::native_readv tags a publish with something other than its own log offset (%s): every message of a sweep gets the same cursor, so the rewind after a partial acknowledgement re-sends acknowledged messages"
+                                      % [(x.kind, getattr(x, "l", None), getattr(x, "fields", None)) for x in src], site=cb.loc(st.get("sp")))
+    ctx.floor(rule, "tuple-building map closure in native_readv", hop1, 1)
+    # hop 2: Forward.cursor is the item's offset
+    hop2 = 0
+    for cb in prog.find(r"^router::routing::forward_device_data::\{closure#\d+\}$"):
+        for blk in cb.blocks:
+            for st in blk["s"]:
+                if "lhs" in st and st["rv"]["k"] == "agg" and st["rv"].get("adt", "").endswith("router::Forward"):
+                    hop2 += 1
+                    i = st["rv"]["fields"].index("cursor")
+                    src = flatten_src(provenance(cb, st["rv"]["ops"][i], through_calls=[r"Option::Some$"]))
+                    if src and all(x.kind == "param" and x.l == 2 for x in src):
+                        ctx.ok(rule, cb.id, "Forward.cursor is the forwarded item's own offset", site=cb.loc(st.get("sp")))
+                    else:
+                        ctx.violation(rule, cb.id, "Forward.cursor source", "Forward.cursor does not derive from the item being forwarded", site=cb.loc(st.get("sp")))
+    ctx.floor(rule, "Forward constructions in forward_device_data closures", hop2, 1)
+    # hop 3: inflight_buffer entry = (pkid just assigned, filter_idx parameter, p.cursor)
+    pf = prog.one(r"^router::iobufs::Outgoing::push_forwards$")
+    hop3 = 0
+    for bb, t in pf.calls():
+        if pf.is_cleanup(bb) or not callee_path(t).endswith("VecDeque::<T, A>::push_back"):
+            continue
+        if [x.split(".")[-1] for x in (receiver_fields(pf, t) or [])][-1:] != ["inflight_buffer"]:
+            continue
+        for s_ in flatten_src(provenance(pf, t["args"][1])):
+            if s_.kind != "agg" or len(s_.rv.get("ops", [])) != 3:
+                continue
+            hop3 += 1
+            o0 = flatten_src(provenance(pf, s_.rv["ops"][0]))
+            o1 = flatten_src(provenance(pf, s_.rv["ops"][1]))
+            o2 = flatten_src(provenance(pf, s_.rv["ops"][2]))
+            ok0 = o0 and all(getattr(x, "fields", None) and x.fields[-1] == "last_pkid" for x in o0)
+            ok1 = o1 and all(x.kind == "param" and x.l == 4 and not x.fields for x in o1)
+            ok2 = o2 and all(x.kind == "call" and x.path.endswith("Iterator::next") and x.fields[-1:] == ["cursor"] for x in o2)
+            if ok0 and ok1 and ok2:
+                ctx.ok(rule, pf.id, "inflight entry = (assigned pkid, filter_idx, the forward's own cursor)", site=pf.loc(t.get("sp")))
+            else:
+                ctx.violation(rule, pf.id, "inflight entry fields", "the (pkid, filter, cursor) entry recorded for an outgoing QoS>0 publish is not (last_pkid, filter_idx, p.cursor): %s/%s/%s" % (ok0, ok1, ok2), site=pf.loc(t.get("sp")))
+    ctx.floor(rule, "inflight_buffer.push_back in push_forwards", hop3, 1)
+    # hop 4: retransmission_map keeps the FIRST (oldest) cursor per filter
+    rm = prog.one(r"^router::iobufs::Outgoing::retransmission_map$")
+    from .c15 import switch_on_call_result
+    sw = switch_on_call_result(rm, r"HashMap::<K, V, S, A>::contains_key$")
+    ins = [bb for bb, t in rm.calls() if callee_path(t).endswith("HashMap::<K, V, S, A>::insert") and not rm.is_cleanup(bb)]
+    if sw and ins and all(dominates(rm, sw[0][2], i) for i in ins):
+        ctx.ok(rule, rm.id, "a filter's entry is inserted only when it has none yet (oldest unacknowledged forward wins)")
+    else:
+        ctx.violation(rule, rm.id, "oldest cursor not kept", "retransmission_map no longer keeps the first (oldest) unacknowledged cursor per filter", site=rm.fn_loc())
